@@ -20,9 +20,11 @@ def main(argv):
             open(p, 'w').write(s.replace(m['old'], m['new'], 1))
             env = dict(os.environ, VERIF_REPO=d, PYTHONPATH='%s:%s' % (ROOT, d))
             t0 = time.time()
-            out = subprocess.run([sys.executable, '-c', 'import json,sys\nfrom pyvc import driver\nr=driver.verify_modules([sys.argv[1]])\n'
+            out = subprocess.run([sys.executable, '-c', 'import json,sys,importlib\nfrom pyvc import driver\nM=importlib.import_module(sys.argv[1]).M\n'
+                                  'only=[q for q in M.contracts if q.endswith("."+sys.argv[2])] if len(M.contracts)>25 else None\n'
+                                  'r=driver.verify_modules([sys.argv[1]], only=only or None)\n'
                                   'print(json.dumps(dict(failed=[(o["name"],o["status"]) for o in r["obligations"] if o["status"]!="discharged"], outside=r["outside_subset"], errors=r["errors"])))',
-                                  m['module']], env=env, capture_output=True, text=True, cwd=ROOT)
+                                  m['module'], m['function']], env=env, capture_output=True, text=True, cwd=ROOT)
             r = json.loads(out.stdout.strip().splitlines()[-1])
             hit = [n for n, s_ in r['failed'] if m['function'] in n] + [o for o in r['outside'] if m['function'] in o]
             other = [n for n, s_ in r['failed'] if m['function'] not in n]
